@@ -25,7 +25,7 @@ def snapshot(tb):
 def unchanged(tb, snap):
     kind, cols, vals = snap
     now = list(tb.columns) if kind == "df" else list(tb.keys())
-    return now == cols and all(np.array_equal(np.asarray(tb[c]), vals[c], equal_nan=True) for c in cols)
+    return now == cols and all(np.array_equal(np.asarray(tb[c]).astype(float), np.asarray(vals[c]).astype(float), equal_nan=True) and np.asarray(tb[c]).dtype == np.asarray(vals[c]).dtype for c in cols)
 
 
 def run(ctx):
@@ -88,6 +88,10 @@ def run(ctx):
             rows_how = ("descending" if k % 12 < 6 else "shuffled") + ", pressure column " + ["uint32", "uint64", "int64"][(k // 6) % 3]
             tb_arg = {c: np.asarray(v)[perm_r].copy() for c, v in tb.items()}
             tb_arg["pressure"] = tb_arg["pressure"].astype([np.uint32, np.uint64, np.int64][(k // 6) % 3])
+        elif k % 7 == 3:
+            # every column held as an object array of Python floats (a frame read with dtype=object, `df.astype(object)`): the same table
+            rows_how = "ascending, all columns of object dtype"
+            tb_arg = {c: np.array(np.asarray(v, float).tolist(), dtype=object) for c, v in tb.items()}
         else:
             tb_arg = tb
         arg = pd.DataFrame(tb_arg) if container == 0 else dict(tb_arg)
